@@ -333,7 +333,8 @@ package datatypes
 //@   requires txWF(its) && op != nil && (ctx != nil ==> allocated(ctx)) && rollbackSound()
 //@   requires[not-nested] !(its.isLocked && its.txCtx == ctx) ==> !its.isLocked
 //@   ghost-exit G.sentences := old(G.sentences) + 1
-//@   ensures[counted] G.sentences == old(G.sentences) + 1
+//@   ghost-exit G.lastOp := op
+//@   ensures[counted] G.sentences == old(G.sentences) + 1 && G.lastOp == op
 //@   requires[remote-has-id] !isLocal ==> op.GetID() != nil
 //@   requires[unit-so-far] its.isLocked && its.txCtx == ctx ==> opsIDed(its.txCtx.opBuffer)
 //@   replay-input locked0 = its.isLocked
@@ -351,10 +352,11 @@ package datatypes
 //@   assumes[a-local-document-remove-returns-the-removed-node] isLocal && result1 == nil && op.(*operations.DocRemoveInObjOperation) ==> result0 != nil
 //@   assumes[document-array-operations-return-json-nodes] isLocal && result1 == nil && (op.(*operations.DocUpdateInArrayOperation) || op.(*operations.DocDeleteInArrayOperation)) ==> result0.([]orda.jsonType)
 //@   assumes[list-delete-returns-the-deleted-values] isLocal && result1 == nil && op.(*operations.DeleteOperation) && result0 != nil ==> result0.([]types.JSONValue) && (forall v in result0.(as []types.JSONValue) :: v != nil)
-//@   modifies @(*TransactionDatatype).BeginTransaction, @(*TransactionDatatype).EndTransaction, @(*BaseDatatype).executeLocalBase, TransactionContext.opBuffer, G:sentences
+//@   modifies @(*TransactionDatatype).BeginTransaction, @(*TransactionDatatype).EndTransaction, @(*BaseDatatype).executeLocalBase, TransactionContext.opBuffer, G:sentences, G:lastOp
 
-// ghost: number of operations executed through SentenceInTx for remote units
+// ghost: number of operations executed through SentenceInTx for remote units, and the last operation handed to it
 //@ ghost field G.sentences mathint
+//@ ghost log field G.lastOp ref
 
 // DoTransaction: runs the user's body inside one unit. The body is arbitrary client code; what is
 // assumed about it (callback-ensures) is what SentenceInTx guarantees for calls made inside the
